@@ -1,4 +1,5 @@
 import Tftp.Props.C03
+import Tftp.Lemmas.SenderStep
 /-!
 # C09 — Option negotiation: OACK is truthful and the transfer uses exactly its values
 
@@ -243,5 +244,44 @@ example : parseWorkerOptions [{ option := .blksize, value := 1428 }, { option :=
     some ({ blockSize := 1428, transferSize := 777, timeoutS := 5, windowSize := 1 },
           [{ option := .blksize, value := 1428 }, { option := .tsize, value := 777 }]) := by decide
 example : Unhonourable { option := .blksize, value := 7 } := Or.inl ⟨rfl, Or.inl (by decide)⟩
+
+end Tftp
+
+namespace Tftp
+
+/-- the sender configuration the server derives from the acknowledged options -/
+def senderCfgOf (w : WorkerSpec) : SCfg :=
+  { b := w.opts.blockSize, w := w.opts.windowSize, timeout := w.opts.timeoutS * 1000, rep := w.rep }
+
+/-- **the transfer uses exactly the acknowledged values.** For a read request the server accepts, the
+worker's parameters are the ones `parse_options` computed (the values in the OACK, `c09_oack_subset`),
+and with those parameters — by C01 and C08 — every DATA block the transfer ever emits is a slice of the
+file of exactly the acknowledged block length (the last one shorter), for every receive history. -/
+theorem c09_transfer_uses_acked_values (cfg : SrvCfg) (fs : Fs) (name : Bytes) (os : List TransferOption)
+    (w : WorkerSpec) (hw : (handleRrq cfg fs name os).worker = some w) :
+    (∃ acked, parseWorkerOptions os (.read (fileSize fs (joinPath cfg.sendDir (convertFilePath name)))) =
+        some (w.opts, acked)) ∧
+    w.rep = cfg.dup + 1 ∧
+    ∀ (f : Bytes) (chk : Bool) (evs : List (SEv × Nat)),
+      ∀ g ∈ (sRun (senderCfgOf w) f chk evs).1, ∀ p ∈ g, GoodPkt (senderCfgOf w) f p := by
+  have hopts : ∃ acked, parseWorkerOptions os (.read (fileSize fs (joinPath cfg.sendDir (convertFilePath name)))) =
+      some (w.opts, acked) ∧ w.rep = cfg.dup + 1 := by
+    unfold handleRrq at hw
+    simp only at hw
+    cases hce : checkFileExists fs (joinPath cfg.sendDir (convertFilePath name)) <;> rw [hce] at hw <;>
+      simp only [errorReply, noReaction] at hw <;> try (simp at hw; done)
+    cases hp : parseWorkerOptions os (.read (fileSize fs (joinPath cfg.sendDir (convertFilePath name)))) with
+    | none => rw [hp] at hw; simp [noReaction] at hw
+    | some r =>
+      obtain ⟨wo, opts'⟩ := r
+      rw [hp] at hw
+      simp at hw
+      rw [← hw]
+      exact ⟨opts', rfl, rfl⟩
+  obtain ⟨acked, hp, hrep⟩ := hopts
+  refine ⟨⟨acked, hp⟩, hrep, ?_⟩
+  have hs := c09_worker_params_sane os _ w.opts acked hp
+  intro f chk evs
+  exact (run_good (c := senderCfgOf w) (by show 0 < w.opts.blockSize; omega) (by show w.opts.windowSize < 65536; omega) f chk evs).2
 
 end Tftp
